@@ -137,6 +137,10 @@ func (s *Session) ArmError(n int, err error) {
 	s.errOn = false
 }
 
+// SetShortWrite makes an injected write error store the first half of the
+// bytes before failing.
+func (s *Session) SetShortWrite(on bool) { s.plan.ShortWrite = on }
+
 // Dead reports whether the simulated process has died.
 func (s *Session) Dead() bool { return s.dead }
 
